@@ -26,9 +26,13 @@ from simftp.world import aioftp
 
 PROP = "C06"
 ALPHA_ASCII = "abcXYZ 019-_.;=\"'()[]|\\/%:*"
-ALPHA_U8 = ALPHA_ASCII + "äöüßéñ€жщ中文🙂"
-ALPHA_L1 = ALPHA_ASCII + "äöüßéñ©®"
-ALPHA_CP1251 = ALPHA_ASCII + "жщяЁ№"
+# characters that some text APIs (str.splitlines, str.split) treat as line boundaries or white
+# space although they do not end a reply line: VT, FF, FS, GS, RS, US - and NEL, LS, PS where
+# the encoding has them
+ODD = "\x0b\x0c\x1c\x1d\x1e\x1f"
+ALPHA_U8 = ALPHA_ASCII + "äöüßéñ€жщ中文🙂" + ODD + "\x85\u2028\u2029\xa0"
+ALPHA_L1 = ALPHA_ASCII + "äöüßéñ©®" + ODD + "\x85\xa0"
+ALPHA_CP1251 = ALPHA_ASCII + "жщяЁ№" + ODD
 
 
 def gen_line(rnd, alpha):
